@@ -419,60 +419,77 @@ func genPrimCases(rng *rand.Rand, scale int) []Case {
 
 type fixedObj struct{ b []byte }
 
+// chunkReader hands out at most n bytes per Read.
+type chunkReader struct {
+	r io.Reader
+	n int
+}
+
+func (c *chunkReader) Read(p []byte) (int, error) {
+	if len(p) > c.n {
+		p = p[:c.n]
+	}
+	return c.r.Read(p)
+}
+
 func streamFunc(cs *Case, in []byte) func() (int, error) {
 	g := func(i int) int64 { return param(cs, i) }
 	return func() (int, error) {
 		r := stream.NewByteReader(in)
+		var rd io.Reader = r
+		if cs.Rd > 0 {
+			rd = &chunkReader{r: r, n: cs.Rd}
+		}
 		var err error
 		switch cs.Tgt {
 		case "Read":
 			switch g(0) {
 			case 0:
-				_, err = stream.Read[bool](r)
+				_, err = stream.Read[bool](rd)
 			case 1:
-				_, err = stream.Read[uint8](r)
+				_, err = stream.Read[uint8](rd)
 			case 2:
-				_, err = stream.Read[uint16](r)
+				_, err = stream.Read[uint16](rd)
 			case 3:
-				_, err = stream.Read[uint32](r)
+				_, err = stream.Read[uint32](rd)
 			case 4:
-				_, err = stream.Read[uint64](r)
+				_, err = stream.Read[uint64](rd)
 			case 5:
-				_, err = stream.Read[int8](r)
+				_, err = stream.Read[int8](rd)
 			case 6:
-				_, err = stream.Read[int16](r)
+				_, err = stream.Read[int16](rd)
 			case 7:
-				_, err = stream.Read[int32](r)
+				_, err = stream.Read[int32](rd)
 			case 8:
-				_, err = stream.Read[int64](r)
+				_, err = stream.Read[int64](rd)
 			case 9:
-				_, err = stream.Read[[32]byte](r)
+				_, err = stream.Read[[32]byte](rd)
 			case 10:
-				_, err = stream.Read[[36]byte](r)
+				_, err = stream.Read[[36]byte](rd)
 			default:
-				_, err = stream.Read[[38]byte](r)
+				_, err = stream.Read[[38]byte](rd)
 			}
 		case "ReadBytes":
-			_, err = stream.ReadBytes(r, int(g(0)))
+			_, err = stream.ReadBytes(rd, int(g(0)))
 		case "ReadBytesWithSize":
-			_, err = stream.ReadBytesWithSize(r, lenTypes[g(0)])
+			_, err = stream.ReadBytesWithSize(rd, lenTypes[g(0)])
 		case "ReadObject":
 			switch g(1) {
 			case 0:
-				_, err = stream.ReadObject(r, int(g(0)), typeutils.Uint64FromBytes)
+				_, err = stream.ReadObject(rd, int(g(0)), typeutils.Uint64FromBytes)
 			case 1:
-				_, err = stream.ReadObject(r, int(g(0)), typeutils.ByteArray32FromBytes)
+				_, err = stream.ReadObject(rd, int(g(0)), typeutils.ByteArray32FromBytes)
 			default:
-				_, err = stream.ReadObject(r, int(g(0)), func(b []byte) (fixedObj, int, error) { return fixedObj{b}, len(b), nil })
+				_, err = stream.ReadObject(rd, int(g(0)), func(b []byte) (fixedObj, int, error) { return fixedObj{b}, len(b), nil })
 			}
 		case "ReadObjectWithSize":
 			switch g(1) {
 			case 0:
-				_, err = stream.ReadObjectWithSize(r, lenTypes[g(0)], typeutils.Uint64FromBytes)
+				_, err = stream.ReadObjectWithSize(rd, lenTypes[g(0)], typeutils.Uint64FromBytes)
 			case 1:
-				_, err = stream.ReadObjectWithSize(r, lenTypes[g(0)], typeutils.ByteArray32FromBytes)
+				_, err = stream.ReadObjectWithSize(rd, lenTypes[g(0)], typeutils.ByteArray32FromBytes)
 			default:
-				_, err = stream.ReadObjectWithSize(r, lenTypes[g(0)], func(b []byte) (fixedObj, int, error) { return fixedObj{b}, len(b), nil })
+				_, err = stream.ReadObjectWithSize(rd, lenTypes[g(0)], func(b []byte) (fixedObj, int, error) { return fixedObj{b}, len(b), nil })
 			}
 		case "ReadObjectFromReader":
 			_, err = stream.ReadObjectFromReader(r, func(rs io.ReadSeeker) (uint32, error) { return stream.Read[uint32](rs) })
@@ -484,17 +501,17 @@ func streamFunc(cs *Case, in []byte) func() (int, error) {
 				return r.BytesRead(), fmt.Errorf("PeekSize moved the reader")
 			}
 		case "ReadCollection":
-			err = stream.ReadCollection(r, lenTypes[g(0)], func(int) error {
+			err = stream.ReadCollection(rd, lenTypes[g(0)], func(int) error {
 				countDecode(&objDecodes)
-				_, e := stream.Read[uint16](r)
+				_, e := stream.Read[uint16](rd)
 				return e
 			})
 		case "ReadCollectionNested":
-			err = stream.ReadCollection(r, lenTypes[g(0)], func(int) error {
+			err = stream.ReadCollection(rd, lenTypes[g(0)], func(int) error {
 				countDecode(&objDecodes)
-				return stream.ReadCollection(r, lenTypes[g(1)], func(int) error {
+				return stream.ReadCollection(rd, lenTypes[g(1)], func(int) error {
 					countDecode(&objDecodes)
-					_, e := stream.ReadBytesWithSize(r, lenTypes[g(2)])
+					_, e := stream.ReadBytesWithSize(rd, lenTypes[g(2)])
 					return e
 				})
 			})
